@@ -1,6 +1,6 @@
 SPECIFICATION Spec
 CONSTANTS N = 3
-  Walkers = {"resolve", "xref", "filters"}
+  Walkers = {"resolve", "xref", "filters", "parents"}
   MaxDepth = 4
   MaxChain = 3
   StackCap = 12
@@ -9,7 +9,8 @@ CONSTANTS N = 3
   G_SCALAR = TRUE
   G_STMFIRST = TRUE
   G_CHAIN = TRUE
-  G_GLOBDEPTH = FALSE
+  G_GLOBDEPTH = TRUE
+  G_WALKDEPTH = FALSE
 INVARIANTS NoOverflow WorkBounded ChainBounded
 PROPERTY Termination
 CHECK_DEADLOCK FALSE
